@@ -262,4 +262,22 @@ def c01(run, ck):
                 assumptions=["stack exhaustion is observed per build profile and stack size of this machine", "the harness is built with opt-level 1"])
 
 
-PIPELINES = {"C01": c01, "C13": c13, "C02": c02, "C18": c18, "C12": c12, "C10": c10, "C09": c09, "C03": c03, "C04": c04, "C05": c05, "C06": c06, "C07": c07, "C08": c08}
+def c11(run, ck):
+    # spec -> implementation: every history of length L of the Api machine, replayed through the real API
+    cases = os.path.join(run.work, "gen_api.ndjson")
+    run.generate("Gen_Api", cfg="Gen_Api_thorough.cfg" if run.thorough else "Gen_Api.cfg", workers=8, out_file=cases)
+    obs = os.path.join(run.work, "gen_api_obs.ndjson")
+    ck.sh([run.vh, "replay-hist", cases, obs], cwd=run.work, timeout=3600)
+    verdicts, recs = run.validate(obs, "Trace_Api", cfg="Trace_Api.cfg", parts=8, label="TLC-generated histories")
+    simple_violations(run, ck, verdicts, recs, "gen-api", describe=lambda rec, v: "")
+    run.exhaustive = True
+    out = os.path.join(run.work, "api.ndjson")
+    run.drive("api", 3000 if run.thorough else 250, out)
+    verdicts, recs = run.validate(out, "Trace_Api", cfg="Trace_Api.cfg", parts=8, label="api histories")
+    simple_violations(run, ck, verdicts, recs, "api", describe=lambda rec, v: "")
+    return dict(rule="random histories (10-200 steps) over {new/clone context, add/replace program (source or precompiled), new/clone bindings, bind/rebind (directly or from JSON), exec, details} on up to 8 program names and 4 variables; "
+                     "after every call the recorded objects must equal the specification's state and every exec must be an outcome of the current programs and bindings; 16 threads replay histories concurrently, each validated on its own",
+                assumptions=["thread schedules are whatever the OS produces"])
+
+
+PIPELINES = {"C11": c11, "C01": c01, "C13": c13, "C02": c02, "C18": c18, "C12": c12, "C10": c10, "C09": c09, "C03": c03, "C04": c04, "C05": c05, "C06": c06, "C07": c07, "C08": c08}
